@@ -253,7 +253,9 @@ func bCursorFaults(t *testing.T) {
 					want[i], want[j] = want[j], want[i]
 				}
 			}
-			for at := 0; at < len(ks); at++ {
+			for at := 0; at < len(ks)*3; at++ {
+				nth := 1 + at/len(ks) // which store Load of the step fails: 1st, 2nd or 3rd
+				at := at % len(ks)
 				m, err := root.LoadMast(bctx, bCfg(st, nil))
 				if err != nil {
 					break
@@ -281,7 +283,7 @@ func bCursorFaults(t *testing.T) {
 						got = append(got, k.(int))
 						if i == at {
 							st.reset()
-							st.failLoad = 1
+							st.failLoad = nth
 						}
 						if forward {
 							err = c.Forward(bctx)
@@ -314,12 +316,83 @@ func bCursorFaults(t *testing.T) {
 					continue
 				}
 				if failedWith != nil && fmt.Sprint(got) != fmt.Sprint(want) {
-					bViolation(t, "C12", "cursor-moved-on-error-"+dir, "seed=%d bf=%d contents %s\n%s step %d failed with %q; after retrying it the walk visited %v, expected %v", seed, bf, bModelString(model), dir, at, failedWith, got, want)
+					bViolation(t, "C12", "cursor-moved-on-error-"+dir, "seed=%d bf=%d contents %s\n%s step %d failed with %q (the %d-th store Load of that step was made to fail); after retrying it the walk visited %v, expected %v", seed, bf, bModelString(model), dir, at, failedWith, nth, got, want)
 				}
 			}
 		}
 	}
 	bStat("C12.cursor_fault_walks", steps)
+	// Ceil / Min / Max that fail on a store fault and are retried on the same cursor
+	placements := 0
+	for seed := 1; seed <= seeds; seed++ {
+		r := &bRand{uint64(seed)*0xD6E8FEB86659FD93 + 5}
+		bf := uint(2 + r.intn(3))
+		st := newBStore("mem://cursor-place-faults")
+		model := map[int]int{}
+		for i, n := 0, 5+r.intn(20); i < n; i++ {
+			model[r.intn(40)] = r.intn(3)
+		}
+		base, err := bBuild(bf, bFormats[r.intn(2)], st, model, 0, false)
+		if err != nil {
+			continue
+		}
+		root, err := base.MakeRoot(bctx)
+		if err != nil {
+			continue
+		}
+		ks := bModelKeys(model)
+		for probe := -1; probe <= 40; probe += 3 {
+			var want []int
+			for _, k := range ks {
+				if k >= probe {
+					want = append(want, k)
+				}
+			}
+			for nth := 1; nth <= 4; nth++ {
+				m, err := root.LoadMast(bctx, bCfg(st, nil))
+				if err != nil {
+					break
+				}
+				var got []int
+				var failedWith error
+				msg := bSafely(func() string {
+					c, err := m.Cursor(bctx)
+					if err != nil {
+						return "Cursor: " + err.Error()
+					}
+					st.reset()
+					st.failLoad = nth
+					err = c.Ceil(bctx, probe)
+					st.reset()
+					if err != nil {
+						failedWith = err
+						if err = c.Ceil(bctx, probe); err != nil {
+							return "retry failed: " + err.Error()
+						}
+					}
+					for i := 0; i <= len(ks)+1; i++ {
+						k, _, ok := c.Get()
+						if !ok {
+							return ""
+						}
+						got = append(got, k.(int))
+						if err := c.Forward(bctx); err != nil {
+							return "Forward: " + err.Error()
+						}
+					}
+					return "walk does not end"
+				})
+				if failedWith == nil {
+					break
+				}
+				placements++
+				if msg != "" || fmt.Sprint(got) != fmt.Sprint(want) {
+					bViolation(t, "C12", "ceil-retry", "seed=%d bf=%d contents %s\nCeil(%d) failed with %q (its %d-th store Load failing); retried on the same cursor and walked forward: visited %v %s, expected %v", seed, bf, bModelString(model), probe, failedWith, nth, got, msg, want)
+				}
+			}
+		}
+	}
+	bStat("C12.cursor_fault_placements", placements)
 }
 
 // ---------------------------------------------------------------------------------------------
